@@ -3,7 +3,8 @@
 (fatal!/panic!/assert*!/unreachable!/unwrap/expect), keyed by file, enclosing fn, kind and
 ordinal (not by line), compared with the committed inventory site_inventory.json.
   site_inventory.py --write   regenerate the committed inventory (keeps existing classifications)
-  site_inventory.py           compare; prints ADDED/REMOVED/CHANGED lines, exit 1 on any difference"""
+  site_inventory.py           compare (multisets of file/fn/kind/text); prints ADDED/REMOVED lines; exit 1 iff a
+                              site was added or edited (a removed site alone is reported, not failed)"""
 import json, os, re, sys
 REPO = "/repo/src"
 FILES = ["raft.rs", "raw_node.rs", "raft_log.rs", "log_unstable.rs", "storage.rs", "read_only.rs", "util.rs",
@@ -52,11 +53,14 @@ def scan():
                 continue
             code = s.split("//")[0]
             for kind, rx in KINDS:
-                for _ in re.finditer(rx, code):
+                for mm in re.finditer(rx, code):
                     k = (f, fn, kind)
                     counts[k] = counts.get(k, 0) + 1
                     key = "%s::%s::%s#%d" % (f, fn, kind, counts[k])
-                    out[key] = {"snippet": re.sub(r"\s+", " ", s)[:160]}
+                    # macros: the text from the macro name on (the same macro moved behind a match arm or
+                    # an `else` is the same site); unwrap/expect: the whole line (the unwrapped expression)
+                    txt = s if kind in ("unwrap", "expect") else code[mm.start():]
+                    out[key] = {"snippet": re.sub(r"\s+", " ", txt).strip()[:160]}
     return out
 
 
@@ -70,16 +74,29 @@ def main():
         json.dump(cur, open(INV, "w"), indent=1, sort_keys=True)
         print("wrote %d sites" % len(cur))
         return 0
-    bad = 0
-    for k in sorted(set(cur) - set(old)):
-        print("ADDED %s | %s" % (k, cur[k]["snippet"])); bad += 1
-    for k in sorted(set(old) - set(cur)):
-        print("REMOVED %s | %s" % (k, old[k]["snippet"])); bad += 1
-    for k in sorted(set(old) & set(cur)):
-        if old[k]["snippet"] != cur[k]["snippet"]:
-            print("CHANGED %s | %s -> %s" % (k, old[k]["snippet"], cur[k]["snippet"])); bad += 1
-    print("sites=%d differences=%d" % (len(cur), bad))
-    return 1 if bad else 0
+    # compare as multisets of (file, fn, kind, text): robust against a shifted ordinal.  A site that
+    # is only REMOVED cannot break "no panic" (the model keeps a site the code no longer has, and
+    # the pointwise tie reports it if the model panics where the code does not): it is printed
+    # and does not fail the comparison.  A new or edited site (ADDED) is unmodelled until it
+    # is looked at: that fails.
+    from collections import Counter
+    def ms(inv):
+        c = Counter()
+        for k, v in inv.items():
+            f, fn, kind = k.rsplit("#", 1)[0].split("::")
+            c[(f, fn, kind, v["snippet"])] += 1
+        return c
+    a, b = ms(cur), ms(old)
+    added, removed = a - b, b - a
+    for (f, fn, kind, sn), n in sorted(added.items()):
+        for _ in range(n):
+            print("ADDED %s::%s::%s | %s" % (f, fn, kind, sn))
+    for (f, fn, kind, sn), n in sorted(removed.items()):
+        for _ in range(n):
+            print("REMOVED %s::%s::%s | %s" % (f, fn, kind, sn))
+    na, nr = sum(added.values()), sum(removed.values())
+    print("sites=%d added=%d removed=%d" % (len(cur), na, nr))
+    return 1 if na else 0
 
 
 if __name__ == "__main__":
